@@ -358,8 +358,13 @@ fn mapping_hash(a: &mut Asm, r: &mut Rng) {
     a.op(op::PUSH0).op(op::MSTORE);
     a.push_u(0x40).op(op::PUSH0).op(op::SHA3);
     if r.chance(1, 4) {
-        // a field of a struct-valued mapping: keccak(key ‖ slot) + n
-        a.push_u(1 + r.below(3) as u128).op(op::ADD);
+        // a field of a struct-valued mapping: keccak(key ‖ slot) + n; the
+        // constant is attacker-chosen, so now and then an absurd one
+        if r.chance(1, 6) {
+            a.push(boundary_constant(r)).op(op::ADD);
+        } else {
+            a.push_u(1 + r.below(3) as u128).op(op::ADD);
+        }
     }
 }
 
@@ -376,15 +381,18 @@ fn array_hash(a: &mut Asm, r: &mut Rng, slot_const: Option<U256>) {
             a.push_u(0x20).op(op::PUSH0).op(op::SHA3);
         }
     }
-    match r.below(3) {
-        0 => {
+    match r.below(13) {
+        0..=3 => {
             a.push_u(r.below(5) as u128);
         }
-        1 => {
+        4..=7 => {
             a.push_u(4).op(op::CALLDATALOAD);
         }
-        _ => {
+        8..=11 => {
             a.push_u(36).op(op::CALLDATALOAD);
+        }
+        _ => {
+            a.push(boundary_constant(r));
         }
     }
     a.op(op::ADD);
@@ -393,7 +401,15 @@ fn array_hash(a: &mut Asm, r: &mut Rng, slot_const: Option<U256>) {
 /// Uses the value on top of the stack in a way that tells the type checker
 /// something. Net -1.
 fn typed_use(a: &mut Asm, r: &mut Rng, scratch_slot: U256) {
-    match r.below(12) {
+    match r.below(14) {
+        12 => {
+            // bounds check against a constant
+            a.push_u(1 + r.below(200) as u128).op(if r.chance(1, 2) { op::LT } else { op::GT }).op(op::POP);
+        }
+        13 => {
+            // signed comparison against a constant
+            a.push_u(r.below(9) as u128).op(if r.chance(1, 2) { op::SLT } else { op::SGT }).op(op::POP);
+        }
         0 => {
             // as address: mask and store elsewhere
             a.push(mask(160)).op(op::AND);
@@ -576,7 +592,9 @@ pub fn gen_storage(r: &mut Rng) -> Vec<u8> {
     while slots.len() < n_slots {
         let s = match r.below(24) {
             0..=18 => U256::from(r.below(6)),
-            19 | 20 => U256::from(r.below(40)),
+            19 => U256::from(r.below(40)),
+            // beyond the first 10 000 slots whose hashes the library knows
+            20 => U256::from(10_000 + r.below(1 << 20)),
             // EIP-1967 implementation / admin slots, and other large keys
             21 => U256::from_str_hex("0x360894a13ba1a3210667c828492db98dca3e2076cc3735a920a3ca505d382bbc").unwrap(),
             22 => U256::from_str_hex("0xb53127684a568b3173ae13b9f8a6016e243e63b6e8ee1178d6a717850b5d6103").unwrap(),
@@ -730,6 +748,153 @@ pub fn gen_cfg(r: &mut Rng) -> Vec<u8> {
         code.extend(gen_storage(r));
     }
     code
+}
+
+// ---------------------------------------------------------------------------
+// W-growth: straight-line chains that make one value grow (value-size
+// limit, culling, memoised sizes, deep trees)
+// ---------------------------------------------------------------------------
+
+pub fn gen_growth(r: &mut Rng) -> Vec<u8> {
+    let mut a = Asm::new();
+    match r.below(4) {
+        0 => a.op(op::CALLER),
+        1 => a.push_u(4).op(op::CALLDATALOAD),
+        2 => a.push_u(r.below(6) as u128).op(op::SLOAD),
+        _ => a.push(small_or_boundary(r)),
+    };
+    let cap = if r.chance(1, 3) { 200 } else { 70 };
+    let n = 10 + r.usize_below(cap);
+    let unit = r.below(9);
+    for i in 0..n {
+        match if r.chance(1, 10) { r.below(9) } else { unit } {
+            0 => {
+                a.dup(1).op(op::ADD);
+            }
+            1 => {
+                a.dup(1).op(op::MUL);
+            }
+            2 => {
+                a.dup(1).dup(1).op(op::ADDMOD);
+            }
+            3 => {
+                // hash chain through memory
+                a.op(op::PUSH0).op(op::MSTORE).push_u(0x20).op(op::PUSH0).op(op::SHA3);
+            }
+            4 => {
+                a.dup(1).op(op::AND).dup(1).op(op::OR);
+            }
+            5 => {
+                a.dup(1).op(op::EXP);
+            }
+            6 => {
+                // storage round trip: the value comes back wrapped
+                let s = r.below(3) as u128;
+                a.dup(1).push_u(s).op(op::SSTORE).push_u(s).op(op::SLOAD).op(op::ADD);
+            }
+            7 => {
+                a.dup(1).push(mask(160)).op(op::AND).op(op::ADD);
+            }
+            _ => {
+                a.dup(1).push_u(1 + (i as u128 % 7)).op(op::SHL).op(op::OR);
+            }
+        }
+    }
+    // Use the result somewhere it matters.
+    match r.below(5) {
+        0 => {
+            a.push_u(r.below(4) as u128).op(op::SSTORE);
+        }
+        1 => {
+            // as a storage key
+            a.op(op::CALLER).swap(1).op(op::SSTORE);
+        }
+        2 => {
+            // as a memory offset, then hashed into a slot
+            a.op(op::CALLER).swap(1).op(op::MSTORE);
+        }
+        3 => {
+            a.push_u(r.below(4) as u128);
+            mapping_hash(&mut a, r);
+            a.op(op::SSTORE);
+        }
+        _ => {
+            a.op(op::POP);
+        }
+    }
+    a.op(op::STOP);
+    a.finish()
+}
+
+// ---------------------------------------------------------------------------
+// W-const: computed constants put where the analysis converts them to native
+// integers (offsets, sizes, shift amounts, jump targets, slot keys)
+// ---------------------------------------------------------------------------
+
+pub fn gen_const_use(r: &mut Rng) -> Vec<u8> {
+    let mut a = Asm::new();
+    let k = 1 + r.usize_below(4);
+    for _ in 0..k {
+        // a computed constant on the stack
+        a.push(boundary_constant(r)).push(boundary_constant(r));
+        a.op(*r.pick(&[
+            op::SHL, op::SHR, op::SAR, op::EXP, op::MUL, op::SUB, op::ADD, op::DIV, op::SDIV, op::MOD, op::SMOD, op::SIGNEXTEND, op::BYTE, op::AND, op::OR, op::XOR,
+        ]));
+        if r.chance(1, 4) {
+            a.op(op::NOT);
+        }
+        match r.below(12) {
+            0 => {
+                // memory offset of a store
+                a.op(op::CALLER).swap(1).op(op::MSTORE);
+            }
+            1 => {
+                a.op(op::MLOAD).push_u(r.below(3) as u128).op(op::SSTORE);
+            }
+            2 => {
+                // hash offset / size
+                a.push_u(0x20).swap(1).op(op::SHA3).push_u(r.below(3) as u128).op(op::SSTORE);
+            }
+            3 => {
+                a.op(op::PUSH0).op(op::SHA3).push_u(r.below(3) as u128).op(op::SSTORE);
+            }
+            4 => {
+                // copy size / offsets
+                a.op(op::PUSH0).op(op::PUSH0).op(*r.pick(&[op::CALLDATACOPY, op::CODECOPY, op::RETURNDATACOPY]));
+            }
+            5 => {
+                a.push_u(0x40).swap(1).op(op::PUSH0).op(op::CALLDATACOPY);
+            }
+            6 => {
+                // shift amount / mask position of a storage value
+                a.push_u(r.below(3) as u128).op(op::SLOAD).swap(1).op(*r.pick(&[op::SHR, op::SHL, op::SAR]));
+                a.push(mask(*r.pick(&[8u32, 64, 160]))).op(op::AND).push_u(r.below(3) as u128).op(op::SSTORE);
+            }
+            7 => {
+                // slot key
+                a.op(op::CALLER).swap(1).op(op::SSTORE);
+            }
+            8 => {
+                a.op(op::SLOAD).op(op::POP);
+            }
+            9 => {
+                // offset added to a mapping / array hash
+                a.push_u(r.below(3) as u128);
+                mapping_hash(&mut a, r);
+                a.op(op::ADD).op(op::SLOAD).op(op::POP);
+            }
+            10 => {
+                // return / revert / log region
+                a.push_u(0x20).swap(1).op(*r.pick(&[op::RETURN, op::REVERT, op::LOG0]));
+            }
+            _ => {
+                // jump target
+                a.op(if r.chance(1, 2) { op::JUMP } else { op::JUMPI });
+            }
+        }
+    }
+    a.op(op::JUMPDEST).op(op::STOP);
+    a.finish()
 }
 
 // ---------------------------------------------------------------------------
